@@ -3,7 +3,8 @@
 
      kernels   _next_position, _next_velocity, _next_activation (non-DCMOTOR branch, with
                support.next_act), _next_time (time update only),
-               _rk_accumulate_velocity_acceleration, _rk_accumulate_activation_velocity, _rk_stage_time;
+               _rk_accumulate_velocity_acceleration, _rk_accumulate_activation_velocity, _rk_stage_time,
+               _rk_perturb_activation;
      host code _advance, euler (branch without implicit damping), the shape shared by
                euler-with-damping / implicit / implicitfast (advance with the result of an
                ABSTRACT linear solve), _rk_perturb_state, _rk_accumulate, rungekutta4.
@@ -124,6 +125,33 @@ Definition next_activation_inplace (h : S) (acts : list (actuator S)) (act act_d
     (scale : S) (limit : bool) : list S :=
   run_inplace (nact_writes h act_dot scale limit) acts act.
 
+(* ---- euler(): implicit joint damping ------------------------------------------------------- *)
+(* util_misc._poly_force_deriv(damping, dpoly, v, 1) as called by _compute_damping_deriv: the
+   velocity derivative of the polynomial damper force v (d + p0 |v| + p1 v^2), evaluated with |v| *)
+Definition damping_deriv (d p0 p1 v : S) : S :=
+  let x := sabs v in
+  d + sofZ 2 * p0 * x + sofZ 3 * p1 * x * x.
+
+(* _compute_damping_deriv over all dofs: dpoly is the list of (p0, p1) *)
+Fixpoint compute_damping_deriv (damping : list S) (dpoly : list (S * S)) (qvel : list S) : list S :=
+  match damping, dpoly, qvel with
+  | d :: dr, (p0, p1) :: pr, v :: vr => damping_deriv d p0 p1 v :: compute_damping_deriv dr pr vr
+  | _, _, _ => nil
+  end.
+
+(* _euler_damp_qfrc: task tid adds timestep * deriv[tid] to the LAST stored entry of row tid of the
+   cloned M (CSR lower triangle: the diagonal), adr = M_rowadr[tid] + M_rownnz[tid] - 1 *)
+Definition euler_damp_qfrc (h : S) (rownnz rowadr : list Z) (deriv : list S) (M : list S) : list S :=
+  fold_left (fun M (t : (Z * Z) * S) =>
+               let adr := (snd (fst t) + fst (fst t) - 1)%Z in
+               vset M adr (vget M adr + h * snd t))
+            (combine (combine rownnz rowadr) deriv) M.
+
+(* ---- _rk_perturb_activation: act_out[i] = act_t0[i] + scale * act_dot[i] * timestep, all na slots
+   (element-wise; no exact filter, no clamp, no dyntype dispatch in the RK sub-stages) *)
+Definition rk_perturb_activation (h : S) (act_t0 act_dot : list S) (scale : S) : list S :=
+  vmap2 (fun a ad => a + scale * ad * h) act_t0 act_dot.
+
 (* ---- the part of Data the integrators touch ------------------------------------------------ *)
 Record data := {
   qpos : list S; qvel : list S; act : list S; time : S;
@@ -159,6 +187,14 @@ Section Steps.
      is the result of a linear solve that is not modelled here (C27 / C06) *)
   Definition solved_step (solve : data -> list S) (d : data) : data := advance d (solve d) None.
 
+  (* euler() with EULERDAMP and DAMPER enabled: qacc solves (M + h diag(D)) qacc = Ma, D the damper
+     derivative at the CURRENT velocity; the factor-solve itself is abstract and receives the diagonal
+     increments h * D the code adds to its clone of M *)
+  Definition euler_damped_step (damping : list S) (dpoly : list (S * S))
+      (solve : list S -> data -> list S) (d : data) : data :=
+    let incr := map (fun dv => timestep m * dv) (compute_damping_deriv damping dpoly (qvel d)) in
+    advance d (solve incr d) None.
+
   (* ---- Runge-Kutta ---- *)
   Definition rkA : list S := [slit 1 2; slit 1 2; s1].
   Definition rkB : list S := [slit 1 6; slit 1 3; slit 1 3; slit 1 6].
@@ -170,12 +206,12 @@ Section Steps.
     let '(vr, ar, adr) := r in (accum scale vr (qvel d), accum scale ar (qacc d), accum scale adr (act_dot d)).
 
   (* _rk_perturb_state: position FIRST (with the velocity of the previous stage), then velocity,
-     then activation (limit = False) *)
+     then activation by plain Euler for every dyntype (kernel _rk_perturb_activation) *)
   Definition rk_perturb (d : data) (scale : S) (qpos_t0 qvel_t0 act_t0 : list S) : data :=
     let h := timestep m in
     let qpos' := next_position h scale (joints m) qpos_t0 (qvel d) (qpos d) in
     let qvel' := next_velocity h qvel_t0 (qacc d) scale in
-    let act' := next_activation h (acts m) act_t0 (act_dot d) scale false (act d) in
+    let act' := rk_perturb_activation h act_t0 (act_dot d) scale in
     {| qpos := qpos'; qvel := qvel'; act := act'; time := time d;
        qacc := qacc d; act_dot := act_dot d; warmstart := warmstart d |}.
 
